@@ -82,7 +82,10 @@ func overlayFor(m *Mutant) (map[string][]byte, error) {
 }
 
 // failingIDs runs the property on an overlaid tree and returns the ids of failed obligations (known findings excluded).
-func failingIDs(ov map[string][]byte, prop, tier string) ([]string, error) {
+// failingIDs lists the obligations of the property that do not discharge on the (overlaid) tree. With retryUnknown an undecided
+// obligation is solved again, alone, with the retry budget of the quick tier - used for must-pass controls, where a timeout
+// under load must not be mistaken for a brittle proof.
+func failingIDs(ov map[string][]byte, prop, tier string, retryUnknown ...bool) ([]string, error) {
 	w, err := setupWorld(ov)
 	if err != nil {
 		return []string{"load:" + err.Error()}, nil
@@ -96,6 +99,13 @@ func failingIDs(ov map[string][]byte, prop, tier string) ([]string, error) {
 		}
 		if matchesKnown(known, prop, o.ID) != nil {
 			continue
+		}
+		if len(retryUnknown) > 0 && retryUnknown[0] && o.Res.Verdict != "sat" && o.Query != "" {
+			r := solve(o.Query, 40, false)
+			if r.Verdict == "unsat" {
+				continue
+			}
+			o.Res = &r
 		}
 		ids = append(ids, o.ID+" ("+o.Res.Verdict+")")
 	}
@@ -134,7 +144,7 @@ func runCanaries(prop, tier string, seed int) (report []map[string]interface{}, 
 			report = append(report, rep)
 			continue
 		}
-		ids, _ := failingIDs(ov, prop, "quick")
+		ids, _ := failingIDs(ov, prop, "quick", m.Kind == "must-pass")
 		rep["failed_obligations"] = ids
 		if m.Kind == "must-pass" {
 			if len(ids) > 0 {
